@@ -24,13 +24,29 @@
      zero it denotes (C05_decode_noncanonical_zero, C05_format_noncanonical); Display = Debug = UpperExp text and LowerExp
      differs only in the exponent mark (C05_m_fmt_spec, C05_format_case).
 
+   * "and the same holds through the serde string representation": Judge.v's clause [expected OSerde md [x]] models
+     serde_json::to_string followed by from_str: Serialize writes the Display text as a JSON string, Deserialize is FromStr
+     on the string's content; the observed outputs are [the JSON text as a number; 1 for Ok; the bits read back].
+     C05_serde_roundtrip: for EVERY integer x (so every 128-bit pattern, non-canonical ones included) the expectation is the
+     single outcome [text in quotes; 1; encode (reparsed (decode x))] with no flag, where [reparsed d] is d itself for a
+     finite or infinite datum and NaN s sg 0 for NaN s sg p. C05_serde_roundtrip_bits: hence for every canonical finite or
+     infinite pattern the third output is x bit for bit. C05_serde_roundtrip_nan: a NaN comes back with its sign and
+     signaling-ness, payload 0 (as for parse(format x)).
+     C05_serde_de_is_fromstr: deserialisation of an arbitrary byte string (harness op "serdede") is judged against the
+     FromStr expectation of the same bytes in which an error outcome [0; flags] is replaced by [0; 0] (a serde error
+     carries no flag word); Ok outcomes [1; bits], predicate parts and the known-finding structure are unchanged
+     (C05_noerrflags_fromstr spells the replacement out on a one-outcome list).
+   * what is executed: C05_dispatch: the harness operations "fmt" and "parse" are judged against m_fmt x and m_parse md l
+     (the theorems above are about these); C05_fromstr2_is_parse_rne: the flag-less entry point d128::from_str-like
+     "fromstr2" is judged against the parse at round-half-even with every raised flag DROPPED (there is no status word to
+     receive them); C05_fromstr2_roundtrip: through it too the text of a canonical finite x reads back as x.
+
    Not covered.
-   * "the same holds through the serde string representation": the model has no separate serde function (Judge.v's OSerde
-     has no [expected] clause; DESIGN models Serialize/Deserialize as the same m_format / fromstr pair), so there is nothing
-     further to prove here; the statement for serde is exactly C05_parse_format_roundtrip composed with C04_fromstr_*.
-   * That the crate's table-driven digit generator agrees with [dec_digits] is the differential harness's job. *)
+   * That the crate's table-driven digit generator agrees with [dec_digits] is the differential harness's job.
+   * serde formats other than JSON strings; the JSON quoting itself is the two bytes 34 around the text (the Display text
+     contains no character that JSON escapes: C05_format_shape, C05_format_inf, C05_format_nan). *)
 From Coq Require Import ZArith Bool List.
-From DV Require Import Base Bid BidProofs Arith OpsArith OpsStr Judge StrProofs.
+From DV Require Import Base Bid BidProofs Arith OpsArith OpsStr Judge StrProofs TotalityProofs DispatchProofs.
 Import ListNotations.
 Open Scope Z_scope.
 
@@ -115,6 +131,65 @@ Theorem C05_format_noncanonical : forall upper x s c q,
 Proof. exact format_noncanonical. Qed.
 Print Assumptions C05_format_noncanonical.
 
+(* ---------- dispatch ---------- *)
+Theorem C05_dispatch : forall md x l,
+  expected OFmt md [x] = Exact (m_fmt x) /\
+  expected OParse md l =
+    match m_parse md l with
+    | SList ol => Exact ol
+    | SGarbage => Pred is_default_qnan [0]
+    | SSnanJunk _ => Pred is_any_nan0 [0]
+    | SExpJunk ol => Known KF_EXPJUNK (Pred is_default_qnan [0]) (Exact ol)
+    end.
+Proof. intros md x l. split; [apply dispatch_fmt|apply dispatch_parse]. Qed.
+Print Assumptions C05_dispatch.
+
+(* [map_exact f e]: f applied to every outcome list of the expectation e; [drop_flags]: every flag component becomes 0 *)
+Theorem C05_fromstr2_is_parse_rne : forall md l,
+  expected OFromStr2 md l = map_exact drop_flags (expected OParse RNE l).
+Proof. exact fromstr2_is_parse_rne. Qed.
+Print Assumptions C05_fromstr2_is_parse_rne.
+
+Theorem C05_fromstr2_roundtrip : forall md upper x, canonical_bits x = true -> is_fin (decode x) = true ->
+  expected OFromStr2 md (m_format upper (decode x)) = Exact [([x], 0)].
+Proof. exact fromstr2_roundtrip. Qed.
+Print Assumptions C05_fromstr2_roundtrip.
+
+(* ---------- serde ---------- *)
+Theorem C05_reparsed : forall s c q sg p,
+  reparsed (Fin s c q) = Fin s c q /\ reparsed (Inf s) = Inf s /\ reparsed (NaN s sg p) = NaN s sg 0.
+Proof. intros. repeat split; reflexivity. Qed.
+Print Assumptions C05_reparsed.
+
+Theorem C05_serde_roundtrip : forall md x,
+  expected OSerde md [x] =
+    Exact [([str_num ([34] ++ m_format true (decode x) ++ [34]); 1;
+             encode (reparsed (decode x))], 0)].
+Proof. exact serde_roundtrip. Qed.
+Print Assumptions C05_serde_roundtrip.
+
+Theorem C05_serde_roundtrip_bits : forall md x, canonical_bits x = true -> is_nan (decode x) = false ->
+  expected OSerde md [x] = Exact [([str_num ([34] ++ m_format true (decode x) ++ [34]); 1; x], 0)].
+Proof. exact serde_roundtrip_bits. Qed.
+Print Assumptions C05_serde_roundtrip_bits.
+
+Theorem C05_serde_roundtrip_nan : forall md x s sg p, decode x = NaN s sg p ->
+  expected OSerde md [x] = Exact [([str_num ([34] ++ m_format true (decode x) ++ [34]); 1; encode (NaN s sg 0)], 0)].
+Proof. exact serde_roundtrip_nan. Qed.
+Print Assumptions C05_serde_roundtrip_nan.
+
+Theorem C05_serde_de_is_fromstr : forall md l,
+  expected OSerdeDe md l =
+    map_exact (map (fun oc : outcome => match oc with ([0; _], f) => ([0; 0], f) | _ => oc end)) (expected OFromStr md l).
+Proof. exact serde_de_is_fromstr. Qed.
+Print Assumptions C05_serde_de_is_fromstr.
+
+Theorem C05_noerrflags_fromstr : forall r fl,
+  map (fun oc : outcome => match oc with ([0; _], f) => ([0; 0], f) | _ => oc end) (fromstr_of [([r], fl)]) =
+  if (fl =? 0) || (fl =? F_INX) then [([1; r], 0)] else [([0; 0], 0)].
+Proof. exact noerrflags_fromstr. Qed.
+Print Assumptions C05_noerrflags_fromstr.
+
 (* ---------- non-vacuity witnesses ---------- *)
 (* 1250E+1 prints as "+1250E+1" / "+1250e+1" *)
 Example ex_format : m_format true (Fin false 1250 1) = [43; 49; 50; 53; 48; 69; 43; 49] /\
@@ -143,3 +218,23 @@ Example ex_noncanonical : canonical_bits T34 = false /\ decode T34 = Fin false 0
 Proof. vm_compute. repeat split; reflexivity. Qed.
 Example ex_canonical_fin : canonical_bits (encode ex_d) = true /\ is_fin (decode (encode ex_d)) = true.
 Proof. vm_compute. split; reflexivity. Qed.
+(* serde: "+1250E+1" in quotes, Ok, the same bits; a NaN with payload comes back without it; a non-canonical pattern comes
+   back as the canonical zero it denotes *)
+Example ex_serde :
+  expected OSerde RNE [encode (Fin false 1250 1)] =
+    Exact [([str_num [34; 43; 49; 50; 53; 48; 69; 43; 49; 34]; 1; encode (Fin false 1250 1)], 0)] /\
+  expected OSerde RDN [encode ex_d] = Exact [([str_num ([34] ++ m_format true ex_d ++ [34]); 1; encode ex_d], 0)] /\
+  expected OSerde RNE [encode (Inf true)] = Exact [([str_num [34; 45; 73; 110; 102; 34]; 1; encode (Inf true)], 0)] /\
+  expected OSerde RNE [encode (NaN true true 77)] =
+    Exact [([str_num [34; 45; 83; 78; 97; 78; 34]; 1; encode (NaN true true 0)], 0)] /\
+  expected OSerde RNE [T34] = Exact [([str_num [34; 43; 48; 69; 45; 54; 49; 55; 54; 34]; 1; encode (Fin false 0 (-6176))], 0)].
+Proof. vm_compute. repeat split; reflexivity. Qed.
+(* deserialisation: "1E7000" overflows: FromStr reports Err with the flags, serde Err without; "1" is Ok either way;
+   fromstr2 of the same overflowing text: +Inf, the flags dropped *)
+Example ex_serde_de :
+  expected OFromStr RNE [49; 69; 55; 48; 48; 48] = Exact [([0; F_OVF + F_INX], 0)] /\
+  expected OSerdeDe RNE [49; 69; 55; 48; 48; 48] = Exact [([0; 0], 0)] /\
+  expected OSerdeDe RNE [49] = Exact [([1; encode (Fin false 1 0)], 0)] /\
+  expected OParse RNE [49; 69; 55; 48; 48; 48] = Exact [([encode (Inf false)], F_OVF + F_INX)] /\
+  expected OFromStr2 RDN [49; 69; 55; 48; 48; 48] = Exact [([encode (Inf false)], 0)].
+Proof. vm_compute. repeat split; reflexivity. Qed.
